@@ -104,7 +104,8 @@ _RESOLVE_MODS = ['new', 'dict(self.db)', 'lists_of(self.db)', 'owned(core.wl.obj
                  'when(len(message.args) == 4 and isinstance(message.args[3], Object), cast(Object, message.args[3]).obj.type)',
                  'each(message.args, core.wl.arg.Arg.Base.name)', 'each(message.args, core.wl.arg.Arg.Int.labels)',
                  'each(message.args, core.wl.arg.Arg.Null.type)', 'each(message.args, core.wl.arg.Arg.Object.obj)']
-_CTL_MODS = ['when(controller() is not None, list(controller().all_messages))', 'when(controller() is not None, controller().last_shown_timestamp)']
+_CTL_MODS = ['when(controller() is not None, list(controller().all_messages))', 'when(controller() is not None, controller().last_shown_timestamp)',
+             'when(ui_state() is not None, ui_state()._paused)']
 
 
 def _gen_ci_message(rnd):
@@ -137,6 +138,7 @@ def _(c):
               'shown_once_iff_selected_and_filter_matches')
     c.ensures('controller() is None or (len(controller().all_messages) == old(len(controller().all_messages)) + 1 and '
               'controller().all_messages[len(controller().all_messages) - 1] is message)', 'controller_records_it')
+    c.ensures('controller() is None or ui_state() is None or ui_state()._paused == (old(ui_state()._paused) or ((controller().current_connection is None or controller().current_connection is self) and controller().stop_matcher.matches(message)))', 'registered_ui_state_paused_iff_breakpoint_matches')
     c.modifies('list(self.message_list)', 'self.obj', 'message.obj', 'message.destroyed_obj', 'self.title', 'self._app_id', 'trace', 'ui', *(_RESOLVE_MODS + _CTL_MODS))
     c.unfold(5)
     c.native_gen(_gen_ci_message)
@@ -236,6 +238,7 @@ def _(c):
     c.let('conn', 'self.open_connections[connection_id]')
     c.ensures('len(conn.message_list) == old(len(conn.message_list)) + 1 and conn.message_list[len(conn.message_list) - 1] is message', 'routed_to_the_connection_of_that_id')
     c.ensures('inv_conn(conn)', 'its_table_stays_well_formed')
+    c.ensures('controller() is None or ui_state() is None or ui_state()._paused == (old(ui_state()._paused) or ((controller().current_connection is None or controller().current_connection is conn) and controller().stop_matcher.matches(message)))', 'registered_ui_state_paused_iff_breakpoint_matches')
     c.ensures('all((i in self.open_connections) == (i in old(keyset(self.open_connections))) for i in strs())', 'open_set_unchanged')
     c.modifies('list(conn.message_list)', 'message.obj', 'message.destroyed_obj', 'conn.title', 'conn._app_id', 'trace', 'ui', 'new',
                'dict(conn.db)', 'lists_of(conn.db)', 'owned(core.wl.object.ObjectBase.alive, conn)', 'owned(core.wl.object.ObjectBase.destroy_time, conn)',
